@@ -291,17 +291,33 @@ def _par_worker(arg):
     import signal
     limit = int(os.environ.get('VERIF_JOB_LIMIT', '300' if parent.quick else '5400'))
 
+    fired = []
+
     def on_alarm(sig, frm):
+        fired.append(1)
+        signal.alarm(5)          # again, in case the exception is swallowed by a handler of the check
         raise JobTimeout()
     signal.signal(signal.SIGALRM, on_alarm)
     signal.alarm(limit)
     try:
         fn(sub, item)
         out = sub._snapshot()
-    except JobTimeout:
-        signal.alarm(0)
-        sub.undecide('a parallel job was stopped after %d s: %s' % (limit, repr(item)[:200]))
-        out = sub._snapshot()
+    except BaseException as ex:
+        # the alarm may surface as another exception type when it interrupts a library call (e.g. ctypes.ArgumentError inside z3)
+        if not fired and not isinstance(ex, JobTimeout):
+            if isinstance(ex, Broken):
+                out = {'broken': str(ex)}
+            elif isinstance(ex, Exception):
+                out = {'broken': 'internal error in a parallel job:\n' + traceback.format_exc()}
+            else:
+                raise
+        else:
+            signal.alarm(0)
+            sub.undecide('a parallel job was stopped after %d s: %s' % (limit, repr(item)[:200]))
+            try:
+                out = sub._snapshot()
+            except Exception:
+                out = {'broken': 'a parallel job was stopped after %d s and left no usable state' % limit}
     except Broken as b:
         out = {'broken': str(b)}
     except Exception:
